@@ -17,7 +17,9 @@ import time
 VERIF = os.path.dirname(os.path.dirname(os.path.abspath(__file__)))
 SPEC = os.path.join(VERIF, "spec")
 HARNESS = os.path.join(VERIF, "harness")
-WORK = os.path.join(VERIF, "work")
+# scratch directory (VERIF_WORK: a second one, so that experiments on a copy of the repository
+# can run next to checks of /repo)
+WORK = os.environ.get("VERIF_WORK") or os.path.join(VERIF, "work")
 EVID = os.path.join(VERIF, "evidence")
 REPLAYS = os.path.join(VERIF, "replays")
 BIN = os.path.join(HARNESS, "target", "release")
